@@ -3,7 +3,7 @@ import re
 
 from hypothesis import strategies as st
 
-from .. import entry, gen
+from .. import entry, gen, ref
 from ..ref import LITERAL, RFC_ALLOWED
 
 RULE = ("generated text (all ASCII incl. controls and RFC-excluded characters, every UTF-8 length class, lone surrogates, valid/lower-case/"
@@ -41,6 +41,19 @@ def validity(ctx, u, e):
         bytes(u)
     except Exception as ex:  # noqa: BLE001
         ctx.check(False, "bytes(url) failed", observed={"exc": ex, "str": s, "raw_host": host}, expected="bytes", entry=e)
+    # the string form itself: decompose str(url) with the reference splitter and apply the same predicate to what is written there
+    try:
+        R = ref.split(s)
+        auth = R["authority"] or ""
+        su, sp, _sh, _spt, _junk = ref.split_authority(auth)
+        written = {"user": su, "password": sp, "path": R["path"], "query": R["query"], "fragment": R["fragment"]}
+        for comp, text in written.items():
+            if text:
+                ctx.check(COMP_RE[comp].match(text) is not None, "the %s written in str(url) contains a character RFC 3986 does not allow there or a malformed/lower-case escape" % comp,
+                          observed={"str": s, "component": text}, expected="(allowed | %HH)*", entry=e)
+        ctx.check(R["scheme"].isascii(), "scheme in str(url) is not ASCII", observed=s, expected="ASCII", entry=e)
+    except Exception:  # noqa: BLE001  (reference splitter cannot fail on str input; defensive)
+        pass
     for comp, acc in ACCESSOR.items():
         try:
             raw = getattr(u, acc)
@@ -88,13 +101,13 @@ def singles(ctx, backend, part, nparts):
     names = entry.NAMES[part::nparts]
     for e in names:
         for ch in chars:
-            for t in (ch, "%" + ch, "a" + ch + "b", ch + "%41", "%4" + ch):
+            for t in (ch, "%" + ch, "a" + ch + "b", ch + "%41", "%4" + ch, ch + ":x", ch + "http://h/p"):
                 ctx.run("valid", backend=backend, e=e, text=t)
 
 
 def generated(ctx, backend, n, part, nparts):
     names = entry.NAMES[part::nparts]
-    ctx.given("valid", {"e": st.sampled_from(names), "text": gen.text(max_tokens=10)}, max_examples=n, fixed={"backend": backend})
+    ctx.given("valid", {"e": st.sampled_from(names), "text": gen.text(max_tokens=10, extra=gen.SCHEMEISH)}, max_examples=n, fixed={"backend": backend})
     ctx.given("valid", {"e": st.sampled_from(names), "text": gen.long_text(max_tokens=120)}, max_examples=max(50, n // 20), fixed={"backend": backend}, tag="long")
 
 
